@@ -1165,6 +1165,206 @@ func pairedNodeLists(w *World, fn *ssa.Function, a, b ssa.Value) bool {
 	return sites > 0
 }
 
+// resultPiece: s is result idx of a call (fld = -1), or field fld of a struct result (read
+// directly or through a local the result was stored in).
+func resultPiece(s ssa.Value) (*ssa.Call, int, int, bool) {
+	asResult := func(v ssa.Value) (*ssa.Call, int, bool) {
+		switch x := v.(type) {
+		case *ssa.Extract:
+			if c, ok := x.Tuple.(*ssa.Call); ok {
+				return c, x.Index, true
+			}
+		case *ssa.Call:
+			return x, 0, true
+		}
+		return nil, 0, false
+	}
+	if c, i, ok := asResult(s); ok {
+		return c, i, -1, true
+	}
+	switch x := s.(type) {
+	case *ssa.Field:
+		if c, i, ok := asResult(x.X); ok {
+			return c, i, x.Field, true
+		}
+	case *ssa.UnOp:
+		if fa, ok := x.X.(*ssa.FieldAddr); ok && x.Op == token.MUL {
+			if al, ok := fa.X.(*ssa.Alloc); ok {
+				var val ssa.Value
+				n := 0
+				for _, ref := range *al.Referrers() {
+					if st, ok := ref.(*ssa.Store); ok && st.Addr == ssa.Value(al) {
+						val = st.Val
+						n++
+					}
+				}
+				if n == 1 {
+					if c, i, ok := asResult(val); ok {
+						return c, i, fa.Field, true
+					}
+				}
+			}
+		}
+	}
+	return nil, 0, 0, false
+}
+
+// returnExcluded: block b of the caller is reached only under a test of another result of
+// the call that this return of the helper fails (a constant flag, a constant token type).
+func returnExcluded(call *ssa.Call, ret *ssa.Return, b *ssa.BasicBlock) bool {
+	for d := b; d != nil; d = d.Idom() {
+		p := d.Idom()
+		if p == nil {
+			break
+		}
+		c, neg := condOf(p)
+		if c == nil || len(p.Succs) != 2 {
+			continue
+		}
+		onTrue := p.Succs[0].Dominates(b) && len(p.Succs[0].Preds) == 1
+		onFalse := p.Succs[1].Dominates(b) && len(p.Succs[1].Preds) == 1
+		if onTrue == onFalse {
+			continue
+		}
+		holds := onTrue != neg // the condition value c is true on our side
+		res := func(v ssa.Value) (int, bool) {
+			// result j of the call, directly or as the only value stored in a local
+			if ex, ok := v.(*ssa.Extract); ok && ex.Tuple == ssa.Value(call) {
+				return ex.Index, true
+			}
+			return 0, false
+		}
+		// a boolean result used as the condition
+		if j, ok := res(c); ok && j < len(ret.Results) {
+			if k, ok := ret.Results[j].(*ssa.Const); ok && k.Value != nil && k.Value.Kind() == constant.Bool && constant.BoolVal(k.Value) != holds {
+				return true
+			}
+		}
+		// a result compared with a constant
+		if bo, ok := c.(*ssa.BinOp); ok && (bo.Op == token.EQL || bo.Op == token.NEQ) {
+			if j, ok := res(bo.X); ok && j < len(ret.Results) {
+				kc, ok1 := bo.Y.(*ssa.Const)
+				kr, ok2 := ret.Results[j].(*ssa.Const)
+				if ok1 && ok2 && kc.Value != nil && kr.Value != nil {
+					equal := constant.Compare(kc.Value, token.EQL, kr.Value)
+					condVal := equal == (bo.Op == token.EQL)
+					if condVal != holds {
+						return true
+					}
+				}
+			}
+		}
+	}
+	return false
+}
+
+// tokenLoopStuck: some way round the outermost scanning loop reaches the loop header again
+// without an instruction that advances the position. The ways are followed with the value
+// that was last stored into the token variable (a struct built by a constructor whose type
+// argument is a constant), so that a test of the token's type is taken the way that value
+// decides: the way on which no arm matched leaves the loop through the unknown-token exit.
+func tokenLoopStuck(hdr *ssa.BasicBlock, body map[*ssa.BasicBlock]bool, cut map[[2]*ssa.BasicBlock]bool) bool {
+	type state struct {
+		blk  *ssa.BasicBlock
+		last ssa.Value
+	}
+	// the type constant a stored token carries (ok=false: not known)
+	typeOf := func(v ssa.Value) (int64, bool) {
+		if _, fresh := v.(*ssa.Alloc); fresh {
+			return 0, true // a variable declared in the loop body starts every round as the zero value
+		}
+		c, ok := v.(*ssa.Call)
+		if !ok {
+			return 0, false
+		}
+		for _, a := range c.Call.Args {
+			if k, ok := a.(*ssa.Const); ok && k.Value != nil && k.Value.Kind() == constant.Int && strings.HasSuffix(a.Type().String(), ".TokenType") {
+				return k.Int64(), true
+			}
+		}
+		return 0, false
+	}
+	seen := map[state]bool{}
+	var walk func(blk *ssa.BasicBlock, last ssa.Value, cell ssa.Value) bool
+	walk = func(blk *ssa.BasicBlock, last ssa.Value, cell ssa.Value) bool {
+		st := state{blk, last}
+		if seen[st] || len(seen) > 20000 {
+			return false
+		}
+		seen[st] = true
+		for _, ins := range blk.Instrs {
+			if al, ok := ins.(*ssa.Alloc); ok && !al.Heap && strings.HasSuffix(al.Type().String(), ".Token") {
+				last, cell = al, al
+			}
+			if s, ok := ins.(*ssa.Store); ok {
+				if al, ok := s.Addr.(*ssa.Alloc); ok && strings.HasSuffix(al.Type().String(), ".Token") {
+					last, cell = s.Val, al
+				}
+			}
+		}
+		// a test of the stored token's type
+		decided := -1
+		if c, neg := condOf(blk); c != nil && len(blk.Succs) == 2 && last != nil {
+			if bo, ok := c.(*ssa.BinOp); ok && (bo.Op == token.EQL || bo.Op == token.NEQ) {
+				if ld, ok := bo.X.(*ssa.UnOp); ok && ld.Op == token.MUL {
+					if fa, ok := ld.X.(*ssa.FieldAddr); ok && fa.X == cell {
+						if k, ok := bo.Y.(*ssa.Const); ok && k.Value != nil && k.Value.Kind() == constant.Int {
+							if tv, known := typeOf(last); known {
+								holds := (tv == k.Int64()) == (bo.Op == token.EQL)
+								if neg {
+									holds = !holds
+								}
+								if holds {
+									decided = 0
+								} else {
+									decided = 1
+								}
+							}
+						}
+					}
+				}
+			}
+		}
+		for i, sc := range blk.Succs {
+			if decided >= 0 && i != decided {
+				continue
+			}
+			if !body[sc] || cut[[2]*ssa.BasicBlock{blk, sc}] {
+				continue
+			}
+			if sc == hdr {
+				if os.Getenv("VERIF_DEBUG") == "lexloop" {
+					fmt.Printf("TOKLOOP back edge from block %d (last=%v)\n", blk.Index, last)
+				}
+				return true
+			}
+			if walk(sc, last, cell) {
+				if os.Getenv("VERIF_DEBUG") == "lexloop" {
+					fmt.Printf("TOKLOOP   via block %d decided=%d\n", blk.Index, decided)
+				}
+				return true
+			}
+		}
+		return false
+	}
+	var last0, cell0 ssa.Value
+	for _, ins := range hdr.Instrs {
+		if s, ok := ins.(*ssa.Store); ok {
+			if al, ok := s.Addr.(*ssa.Alloc); ok && strings.HasSuffix(al.Type().String(), ".Token") {
+				last0, cell0 = s.Val, al
+			}
+		}
+	}
+	for _, sc := range hdr.Succs {
+		if body[sc] && !cut[[2]*ssa.BasicBlock{hdr, sc}] {
+			if sc == hdr || walk(sc, last0, cell0) {
+				return true
+			}
+		}
+	}
+	return false
+}
+
 // countdownLoop: the loop is left when its counter is no longer above a constant, and every
 // way round the loop takes a positive constant off the counter.
 func countdownLoop(hdr *ssa.BasicBlock) bool {
@@ -2919,6 +3119,80 @@ func LexProgressRule(w *World, r *Result, rule string) {
 					}
 				}
 			}
+			// a piece source[a:b] with b − a ≥ 1
+			if sl, ok := s.(*ssa.Slice); ok && isString(sl.X.Type()) && sl.Low != nil && sl.High != nil {
+				if lenEngine == nil || lenEngine.w != w {
+					lenEngine = newLenEng(w)
+				}
+				hi, ok1 := lenEngine.intLower(sl.High, sl.Block(), 0)
+				lo, ok2 := lenEngine.intUpper(sl.Low, sl.Block(), 0)
+				if ok1 && ok2 && hi.sub(lo).add(lconst(-1)).nonneg() {
+					return true
+				}
+			}
+			// handed back by a helper of the lexer together with a flag or a token type that was
+			// tested on the way here: the returns that the test leaves are looked at
+			if call, idx, fld, ok := resultPiece(s); ok {
+				if helper := call.Call.StaticCallee(); helper != nil && len(helper.Blocks) > 0 && helper.Pkg == fn.Pkg {
+					all, n := true, 0
+					for _, hb := range helper.Blocks {
+						ret, isRet := hb.Instrs[len(hb.Instrs)-1].(*ssa.Return)
+						if !isRet || idx >= len(ret.Results) || returnExcluded(call, ret, b) {
+							continue
+						}
+						n++
+						rv := ret.Results[idx]
+						if fld >= 0 {
+							// a field of a struct result: an element of the punctuation table
+							okElem := false
+							// (through a local copy of the element: mapping := table[i])
+							for i := 0; i < 3; i++ {
+								u, ok := rv.(*ssa.UnOp)
+								if !ok {
+									break
+								}
+								al, ok := u.X.(*ssa.Alloc)
+								if !ok {
+									break
+								}
+								var val ssa.Value
+								n := 0
+								for _, ref := range *al.Referrers() {
+									if st, ok := ref.(*ssa.Store); ok && st.Addr == ssa.Value(al) {
+										val = st.Val
+										n++
+									}
+								}
+								if n != 1 {
+									break
+								}
+								rv = val
+							}
+							if u, ok := rv.(*ssa.UnOp); ok {
+								if ia, ok := u.X.(*ssa.IndexAddr); ok {
+									if g, ok := ia.X.(*ssa.UnOp); ok {
+										if gl, ok := g.X.(*ssa.Global); ok && lf.PunctVar != nil && gl.Name() == lf.PunctVar.Name() && punctNonEmpty {
+											if st, ok := rv.Type().Underlying().(*types.Struct); ok && fld < st.NumFields() && isString(st.Field(fld).Type()) {
+												okElem = true
+											}
+										}
+									}
+								}
+							}
+							if !okElem {
+								all = false
+							}
+							continue
+						}
+						if !nonEmpty(rv, hb, depth+1) {
+							all = false
+						}
+					}
+					if all && n > 0 {
+						return true
+					}
+				}
+			}
 			// tested against "" on the way to b
 			for d := b; d != nil; d = d.Idom() {
 				p := d.Idom()
@@ -3027,9 +3301,7 @@ func LexProgressRule(w *World, r *Result, rule string) {
 					nested = true
 				}
 			}
-			if !nested && fn.Pos() == lf.Tokenize.Name.Pos() {
-				continue
-			}
+			outermost := !nested && fn.Pos() == lf.Tokenize.Name.Pos()
 			body := loopBody(hdr)
 			cut := map[[2]*ssa.BasicBlock]bool{}
 			// an inner scanning loop that is entered under a character-class test which implies
@@ -3065,6 +3337,11 @@ func LexProgressRule(w *World, r *Result, rule string) {
 				if body[sc] && !cut[[2]*ssa.BasicBlock{hdr, sc}] && (sc == hdr || reachableFromWithout(sc, cut, hdr)) {
 					stuck = true
 				}
+			}
+			if outermost {
+				// the outermost loop: the way on which no arm matched leaves the loop through the
+				// unknown-token error; it is followed with the token that was last stored
+				stuck = tokenLoopStuck(hdr, body, cut)
 			}
 			n++
 			perFn++
